@@ -77,6 +77,14 @@ def cases(draw, isa, archs, kernels):
     body = [l for l in body if not l.startswith(".byte")]
     if not body or body[0].startswith("."):
         body = ["nop"] + body if isa == "x86" else ["mov x9, x10"] + body
+    force_arch = None
+    if isa == "aarch64" and draw(st.integers(0, 7)) == 0:
+        # the one shipped instruction with alternative port assignments (a64fx smlal) as first kernel line, with
+        # instructions that make the second alternative the better one
+        name, force_arch = "a64fx-alternatives", "a64fx"
+        body = ["smlal v0.2d, v1.2s, v2.2s"] + [draw(st.sampled_from(
+            ["dup v3.2d, v4.d[0]", "dup v5.2d, v6.d[0]", "dup v10.2d, v11.d[0]", "fadd v7.2d, v8.2d, v9.2d",
+             "fadd v0.2d, v0.2d, v7.2d"])) for _ in range(draw(st.integers(3, 7)))]
     noarch = isa == "x86" and draw(st.integers(0, 4)) == 0
     if noarch:
         name = "gpr-only"
@@ -114,7 +122,7 @@ def cases(draw, isa, archs, kernels):
         noise.append([draw(st.integers(0, len(body))), draw(st.sampled_from(
             ["# noise" if isa == "x86" else "// noise", ".Lnoise%d:" % draw(st.integers(0, 3)), ".p2align 4", "",
              "   "]))])
-    return {"isa": isa, "arch": draw(st.sampled_from(archs)), "kernel": name, "body": body, "pro": pro, "epi": epi,
+    return {"isa": isa, "arch": force_arch or draw(st.sampled_from(archs)), "kernel": name, "body": body, "pro": pro, "epi": epi,
             "order": draw(st.sampled_from([0, 0, 1, 2, 3, 5])), "noarch": noarch,
             "holes": draw(st.lists(st.integers(0, 20), max_size=3)) if draw(st.integers(0, 2)) == 0 else [],
             "style": style, "blank": draw(st.sampled_from([0, 0, 1, 3, 996, 1200, 4900])),
@@ -211,6 +219,9 @@ def check_case(case):
     gap_cl = []
     if holes and len(case["body"]) >= 3:
         keep = [i for i in range(len(case["body"])) if i not in {1 + h % (len(case["body"]) - 2) for h in holes}]
+        sel = [case["body"][i] for i in keep]
+        if any(sel[i].strip() in mv_ and sel[i + 1].strip() == by_ for i in range(len(sel) - 1)):
+            keep = list(range(len(case["body"])))  # the selection itself would form a marker: not used
         if len(keep) < len(case["body"]):
             sel_nos = [body_nos[i] for i in keep]
             a_gap = analyse(base + ["--lines", ",".join(str(x) for x in sel_nos)], code, "--lines with holes")
